@@ -73,6 +73,12 @@ structure KeyRec where
   src : Nat
 deriving DecidableEq, Repr
 
+/-- the shadow tables of a full reload (copies of the live tables without this socket's records) -/
+structure Upd where
+  pt : List Rec
+  kt : List KeyRec
+deriving Inhabited
+
 inductive TapeEv where
   | rx (bytes : List Nat)
   | err | block | intr | closed
@@ -93,6 +99,7 @@ structure St where
   trace : List String := []          -- most recent first
   pt : List Rec := []                -- prefix table: records of all sources (`src` 0 = this socket)
   kt : List KeyRec := []             -- router-key table
+  shadow : Option Upd := none        -- shadow tables while a reload is being applied
   threaded : Bool := false
 deriving Inhabited
 
@@ -129,7 +136,8 @@ def hex (b : List Nat) : String := Proto.bytesToHex b
 def changeState (st : St) (n : SState) : St :=
   if st.s.state = n then st
   else if st.s.state = .shutdown then st
-  else ({ st with s := { st.s with state := n } }).emit s!"S {n.name}"
+  else ({ st with s := { st.s with state := n } }).emit
+    s!"S {n.name} {st.now} {(st.pt.filter (fun (r : Rec) => r.src == 0)).length + (st.kt.filter (fun (r : KeyRec) => r.src == 0)).length}"
 
 /-! ## scripted transport -/
 
@@ -345,83 +353,87 @@ def txtBadLenPfx : List Nat := cstr "Prefix PDU with invalid length value receiv
 def txtBadFlagsKey : List Nat := cstr "Router Key PDU with invalid flags value received"
 def txtPfxTable : List Nat := cstr "PFX_TABLE Error"
 
-/-- the tables a synchronisation writes to: the live ones or the shadow ones -/
-structure Upd where
-  pt : List Rec
-  kt : List KeyRec
+/-- the tables a synchronisation writes to: the shadow ones during a reload, else the live ones -/
+def St.upd (st : St) : Upd := match st.shadow with | some u => u | none => ⟨st.pt, st.kt⟩
+def St.setUpd (st : St) (u : Upd) : St :=
+  match st.shadow with | some _ => { st with shadow := some u } | none => { st with pt := u.pt, kt := u.kt }
 
 /-- `rtr_update_pfx_table`: `true` = success -/
-def updatePfx (st : St) (u : Upd) (raw : List Nat) : Bool × St × Upd :=
+def updatePfx (st : St) (raw : List Nat) : Bool × St :=
   let r := pfxRecOf raw
   let maxBits := if r.v6 then 128 else 32
   if r.len > maxBits ∨ r.maxLen > maxBits then
     let (_, st) := sendErrorFromHost st raw raw.length 0 txtBadLenPfx
-    (false, st, u)
+    (false, st)
   else if flagsOf raw ≠ 0 ∧ flagsOf raw ≠ 1 then
     let (_, st) := sendErrorFromHost st raw raw.length 0 txtBadFlagsPfx
-    (false, st, u)
+    (false, st)
   else
+    let u := st.upd
     let (pt', rc) := if flagsOf raw = 1 then ptAdd u.pt r else ptRemove u.pt r
     match rc with
     | .duplicate =>
       let (_, st) := sendErrorFromHost st raw raw.length 7 []
-      (false, changeState st .errFatal, u)
+      (false, changeState st .errFatal)
     | .notFound =>
       let (_, st) := sendErrorFromHost st raw raw.length 6 []
-      (false, changeState st .errFatal, u)
-    | .error => (false, st, u)
-    | .success => (true, st, { u with pt := pt' })
+      (false, changeState st .errFatal)
+    | .error => (false, st)
+    | .success => (true, st.setUpd { u with pt := pt' })
 
 /-- `rtr_update_spki_table` -/
-def updateKey (st : St) (u : Upd) (raw : List Nat) : Bool × St × Upd :=
+def updateKey (st : St) (raw : List Nat) : Bool × St :=
   let r := keyRecOf raw
   if flagsOf raw ≠ 0 ∧ flagsOf raw ≠ 1 then
     let (_, st) := sendErrorFromHost st raw raw.length 0 txtBadFlagsKey
-    (false, st, u)
+    (false, st)
   else
+    let u := st.upd
     let (kt', rc) := if flagsOf raw = 1 then ktAdd u.kt r else ktRemove u.kt r
     match rc with
     | .duplicate =>
       let (_, st) := sendErrorFromHost st raw raw.length 7 []
-      (false, changeState st .errFatal, u)
+      (false, changeState st .errFatal)
     | .notFound =>
       let (_, st) := sendErrorFromHost st raw raw.length 6 []
-      (false, changeState st .errFatal, u)
-    | .error => (false, st, u)
-    | .success => (true, st, { u with kt := kt' })
+      (false, changeState st .errFatal)
+    | .error => (false, st)
+    | .success => (true, st.setUpd { u with kt := kt' })
 
 /-- `rtr_undo_update_pfx_table`: the inverse operation; `true` = PFX_SUCCESS -/
-def undoPfx (u : Upd) (raw : List Nat) : Bool × Upd :=
+def undoPfx (st : St) (raw : List Nat) : Bool × St :=
   let r := pfxRecOf raw
+  let u := st.upd
   let (pt', rc) := if flagsOf raw = 1 then ptRemove u.pt r else ptAdd u.pt r
-  (rc == .success, { u with pt := if rc == .success then pt' else u.pt })
+  if rc == .success then (true, st.setUpd { u with pt := pt' }) else (false, st)
 
-def undoKey (u : Upd) (raw : List Nat) : Bool × Upd :=
+def undoKey (st : St) (raw : List Nat) : Bool × St :=
   let r := keyRecOf raw
+  let u := st.upd
   let (kt', rc) := if flagsOf raw = 1 then ktRemove u.kt r else ktAdd u.kt r
-  (rc == .success, { u with kt := if rc == .success then kt' else u.kt })
+  if rc == .success then (true, st.setUpd { u with kt := kt' }) else (false, st)
 
 /-- forward-order undo of a list of PDUs, stopping at the first failure: `true` = all undone -/
-def undoAllPfx (u : Upd) : List (List Nat) → Bool × Upd
-  | [] => (true, u)
-  | p :: ps => let (ok, u') := undoPfx u p; if ok then undoAllPfx u' ps else (false, u')
+def undoAllPfx (st : St) : List (List Nat) → Bool × St
+  | [] => (true, st)
+  | p :: ps => let (ok, st') := undoPfx st p; if ok then undoAllPfx st' ps else (false, st')
 
-def undoAllKey (u : Upd) : List (List Nat) → Bool × Upd
-  | [] => (true, u)
-  | p :: ps => let (ok, u') := undoKey u p; if ok then undoAllKey u' ps else (false, u')
+def undoAllKey (st : St) : List (List Nat) → Bool × St
+  | [] => (true, st)
+  | p :: ps => let (ok, st') := undoKey st p; if ok then undoAllKey st' ps else (false, st')
 
 /-- apply a list of PDUs in order; on the first failure return the PDUs applied so far -/
-def applyPfx (st : St) (u : Upd) : List (List Nat) → List (List Nat) → Bool × St × Upd × List (List Nat)
-  | [], done => (true, st, u, done)
+def applyPfx (st : St) : List (List Nat) → List (List Nat) → Bool × St × List (List Nat)
+  | [], done => (true, st, done)
   | p :: ps, done =>
-    let (ok, st', u') := updatePfx st u p
-    if ok then applyPfx st' u' ps (done ++ [p]) else (false, st', u', done)
+    let (ok, st') := updatePfx st p
+    if ok then applyPfx st' ps (done ++ [p]) else (false, st', done)
 
-def applyKey (st : St) (u : Upd) : List (List Nat) → List (List Nat) → Bool × St × Upd × List (List Nat)
-  | [], done => (true, st, u, done)
+def applyKey (st : St) : List (List Nat) → List (List Nat) → Bool × St × List (List Nat)
+  | [], done => (true, st, done)
   | p :: ps, done =>
-    let (ok, st', u') := updateKey st u p
-    if ok then applyKey st' u' ps (done ++ [p]) else (false, st', u', done)
+    let (ok, st') := updateKey st p
+    if ok then applyKey st' ps (done ++ [p]) else (false, st', done)
 
 /-! ## intervals (End of Data, protocol version 1) -/
 
@@ -450,39 +462,36 @@ def txtUnexpectedSync2 : List Nat := cstr "Unexpected PDU received in data synch
 /-- what the End of Data branch does once the PDUs are buffered: returns success and the new state -/
 def applyBuffered (st : St) (eod : List Nat) (v4 v6 keys : List (List Nat)) : Bool × St :=
   let st := { st with s := applyEodIntervals st.s eod }
-  let resetting := st.s.isResetting
   -- shadow tables: copies without this socket's records
-  let u0 : Upd := if resetting then ⟨ptSrcRemove st.pt 0, ktSrcRemove st.kt 0⟩ else ⟨st.pt, st.kt⟩
+  let st := if st.s.isResetting then { st with shadow := some ⟨ptSrcRemove st.pt 0, ktSrcRemove st.kt 0⟩ } else st
   -- failure after an undo that did not restore: purge this socket's records from the live tables
   let purge := fun (st : St) => { st with pt := ptSrcRemove st.pt 0, kt := ktSrcRemove st.kt 0,
                                           s := { st.s with reqSession := true } }
-  let commit := fun (st : St) (u : Upd) => if resetting then st else { st with pt := u.pt, kt := u.kt }
-  let (ok4, st, u, done4) := applyPfx st u0 v4 []
+  let (ok4, st, done4) := applyPfx st v4 []
   if !ok4 then
-    let (undone, u) := undoAllPfx u done4
-    let st := commit st u
+    let (undone, st) := undoAllPfx st done4
     let st := if undone then st else purge st
     (false, changeState st .errFatal)
   else
-    let (ok6, st, u, done6) := applyPfx st u v6 []
+    let (ok6, st, done6) := applyPfx st v6 []
     if !ok6 then
-      let (un4, u) := undoAllPfx u v4
-      let (un6, u) := if un4 then undoAllPfx u done6 else (false, u)
-      let st := commit st u
+      let (un4, st) := undoAllPfx st v4
+      let (un6, st) := if un4 then undoAllPfx st done6 else (false, st)
       let st := if un4 && un6 then st else purge st
       (false, changeState st .errFatal)
     else
-      let (okk, st, u, donek) := applyKey st u keys []
+      let (okk, st, donek) := applyKey st keys []
       if !okk then
-        let (un4, u) := undoAllPfx u v4
-        let (un6, u) := if un4 then undoAllPfx u v6 else (false, u)
-        let (unk, u) := if un4 && un6 then undoAllKey u donek else (false, u)
-        let st := commit st u
+        let (un4, st) := undoAllPfx st v4
+        let (un6, st) := if un4 then undoAllPfx st v6 else (false, st)
+        let (unk, st) := if un4 && un6 then undoAllKey st donek else (false, st)
         let st := if un4 && un6 && unk then st else purge st
         (false, changeState st .errFatal)
       else
-        -- success: live tables updated (incremental) or swapped in (reset)
-        let st := { st with pt := u.pt, kt := u.kt }
+        -- success: a reload swaps the shadow tables in
+        let st := match st.shadow with
+          | some u => { st with pt := u.pt, kt := u.kt, shadow := none }
+          | none => st
         (true, { st with s := { st.s with serial := be32 eod 8 } })
 
 /-- the receive loop of `rtr_sync_receive_and_store_pdus`; `true` = RTR_SUCCESS.
@@ -491,7 +500,7 @@ def recvAndStore (fuel : Nat) (st : St) (v4 v6 keys : List (List Nat)) : Bool ×
   match fuel with
   | 0 => (false, st)
   | fuel + 1 =>
-    let cleanup := fun (r : Bool × St) => (r.1, { r.2 with s := { r.2.s with isResetting := false } })
+    let cleanup := fun (r : Bool × St) => (r.1, { r.2 with shadow := none, s := { r.2.s with isResetting := false } })
     match receivePdu st Gen.RTR_RECV_TIMEOUT with
     | (.rc code, st) =>
       if code = -2 then cleanup (false, changeState st .errTransport) else cleanup (false, st)
@@ -587,7 +596,7 @@ def trOpen (st : St) : Int × St :=
   let (rc, q) := match st.openQ with | [] => ((0 : Int), []) | x :: q => (x, q)
   let st := { st with openQ := q }
   let st := (dumpLines "T" st).foldl (fun st l => st.emit l) st
-  (rc, st.emit s!"O {rc} {st.now}")
+  (rc, st.emit s!"O {rc} {st.now} {st.s.expire}")
 
 def trClose (st : St) : St := st.emit "C"
 
